@@ -33,6 +33,10 @@ func run(vm *otto.Otto, src string) string {
 	if r.Budget {
 		panic(budgetHit{})
 	}
+	if r.Panicked {
+		// a Go panic crossing Run is never acceptable and would make both sides "equal": fail loudly
+		panic(fmt.Sprintf("a Go panic crossed Run: %v\nwhile running: %.300s", r.Panic, src))
+	}
 	return r.Describe()
 }
 
@@ -54,7 +58,16 @@ func build(setup []string) (*otto.Otto, []string) {
 	return vm, results
 }
 
-func dump(vm *otto.Otto) string { return run(vm, heap.Dump) }
+// dump is the canonical whole-heap description, walked from Go through the native reflection functions
+// saved by the prelude (identity via a Go map: linear in the heap size).
+func dump(vm *otto.Otto) string {
+	vm.Interrupt = nil
+	d, err := heap.DumpGo(vm)
+	if err != nil {
+		panic("heap dump failed: " + err.Error())
+	}
+	return d
+}
 
 func diff(a, b string) string {
 	la, lb := strings.Split(a, "\n"), strings.Split(b, "\n")
@@ -180,8 +193,8 @@ func checkCopy(c copyCase) (out harness.Outcome) {
 var copyFacet = harness.Register(&harness.Facet[copyCase]{
 	Name: "copy-vs-replay",
 	Rule: "rapid: a setup history of 1-4 programs (templates building counters in closures, shared environments, prototype chains, accessors over hidden state, restricted attributes and reordered properties, frozen/sealed objects, bound functions with bound arguments, leaked and aliased arguments objects, functions with own properties, modified built-ins, RegExp lastIndex, Date and Error objects, cycles, wrappers, sparse arrays, eval/Function/with bindings; 30% programs from the semantic generator), 0-3 mutation programs for the copy, 0-2 different ones for the original, and a copy-of-copy depth 0-2. Oracle: differential against replay — A=New();A.Run(H); C=A.Copy()^n; R=New();R.Run(H): canonical heap dump (every reachable object: class, prototype, extensibility, own properties in order with attributes and values, function source, Date/RegExp/wrapper internals) of C equals R's; calling every exported function gives equal results and equal heaps; the original's dump is unchanged by anything run on the copy; then BOTH sides are changed differently (mutation programs plus a program adding a differently named fresh key to every global object and function) and each must equal its own replayed reference after the same programs, in dump and in the results of calling the exported functions. Non-trivial = the history defines a function; distinct by case",
-	Quick:    45,
-	Thorough: 500,
+	Quick:    400,
+	Thorough: 4000,
 	Gen: func(t *rapid.T) copyCase {
 		c := copyCase{Chain: rapid.IntRange(0, 2).Draw(t, "chain")}
 		for i, n := 0, rapid.IntRange(1, 4).Draw(t, "nsetup"); i < n; i++ {
@@ -204,7 +217,7 @@ func TestCopyVsReplay(t *testing.T) { copyFacet.Run(t) }
 // combined with two mutators and a copy-of-copy depth chosen round-robin
 var eachFacet = harness.Register(&harness.Facet[copyCase]{
 	Name:  "copy-vs-replay-each-builder",
-	Rule:  "complete enumeration of the heap-builder templates (one per clone path: closures, named function expressions, catch/with/arguments scopes, bound functions with object this and arguments, accessors, attributes, frozen objects, modified built-ins, RegExp/Date/Error, cycles, wrappers, grown key lists, deep chains), each alone as the setup history, with two mutators and copy depth 0-2 assigned round-robin; same oracle as copy-vs-replay; every case non-trivial; distinct by builder",
+	Rule:  "complete enumeration of the heap-builder templates (one per clone path: closures, named function expressions, catch/with/arguments scopes, bound functions with object this and arguments, accessors, attributes, frozen objects, modified built-ins, RegExp/Date/Error, cycles, wrappers, grown key lists, deep chains), each alone as the setup history, with two mutators and copy depth 0-2 assigned round-robin, plus targeted (setup, program for the copy, program for the original) triples at every copy depth 0-2 — arguments parameter maps, accessor halves, rebound built-in constructor names, grown key lists, one-sided attribute changes, closures over with/catch/eval scopes, RegExp/Date/Error/wrapper internals, bound functions over heap objects; same oracle as copy-vs-replay; every case non-trivial; distinct by builder",
 	Check: checkCopy,
 })
 
@@ -218,6 +231,12 @@ func TestCopyEachBuilder(t *testing.T) {
 			Mutate2: []string{strings.ReplaceAll(heap.Mutators[(i+7)%len(heap.Mutators)], "%N", n)},
 			Chain:   i % 3,
 		})
+	}
+	// targeted triples: every copy depth 0..2
+	for _, tr := range heap.Targeted {
+		for chain := 0; chain <= 2; chain++ {
+			cases = append(cases, copyCase{Setup: []string{tr.Setup}, Mutate: []string{tr.OnCopy}, Mutate2: []string{tr.OnOrig}, Chain: chain})
+		}
 	}
 	harness.SetExhaustive(eachFacet.Name)
 	eachFacet.Each(t, cases)
